@@ -32,6 +32,11 @@ pub enum Op {
     /// create an iterator, take up to `take` items (None: until it ends), call next() `extra`
     /// more times after the end, then drop it
     Iter { id: u32, take: Option<usize>, extra: usize, signal: bool },
+    /// the same in pieces, so that one thread can hold several iterators at a time: create,
+    /// call next() up to n times (stops at None), drop
+    IterOpen(u32),
+    IterNext(u32, usize),
+    IterClose(u32),
     /// take one token from a gate (wait for it)
     PassGate(u8),
     ClientThunk(u32),
@@ -136,9 +141,41 @@ struct Ctx {
     share: bool,
 }
 
-fn exec(ctx: &Arc<Ctx>, si: usize, op: &Op) {
+/// per-thread interpreter state
+#[derive(Default)]
+struct Local {
+    iters: HashMap<u32, (Box<dyn Iterator<Item = (St, Act)>>, bool)>,
+}
+
+fn exec(ctx: &Arc<Ctx>, si: usize, op: &Op, local: &mut Local) {
     let store = &ctx.stores[si];
     match op {
+        Op::IterOpen(id) => {
+            log(Ev::Call { op: "iter", a: *id as i64 });
+            let it = store.iter();
+            log(Ev::Ret { op: "iter", a: *id as i64, ok: true, st: vec![] });
+            local.iters.insert(*id, (Box::new(it), false));
+        }
+        Op::IterNext(id, n) => {
+            let (it, ended) = local.iters.get_mut(id).expect("iterator");
+            for _ in 0..*n {
+                log(Ev::Call { op: "iter_next", a: *id as i64 });
+                match it.next() {
+                    Some((s, a)) => log(Ev::Cb { kind: if *ended { "iter_item_after_end" } else { "iter_item" }, comp: *id, act: a.id, st: s.0, out: vec![], x: 0 }),
+                    None => {
+                        log(Ev::Cb { kind: "iter_end", comp: *id, act: 0, st: vec![], out: vec![], x: *ended as i64 });
+                        *ended = true;
+                        break;
+                    }
+                }
+            }
+        }
+        Op::IterClose(id) => {
+            let (it, ended) = local.iters.remove(id).expect("iterator");
+            log(Ev::Call { op: "iter_drop", a: *id as i64 });
+            drop(it);
+            log(Ev::Ret { op: "iter_drop", a: *id as i64, ok: ended, st: vec![] });
+        }
         Op::Dispatch(a) => {
             dispatch(store, a.clone());
         }
@@ -325,7 +362,7 @@ fn exec(ctx: &Arc<Ctx>, si: usize, op: &Op) {
             drop(d);
             log(Ev::Ret { op: "stop", a: 1, ok: true, st: vec![] });
         }
-        Op::On(i, op) => exec(ctx, *i, op),
+        Op::On(i, op) => exec(ctx, *i, op, local),
         Op::SpawnAll | Op::JoinAll | Op::JoinThese(_) => unreachable!(),
     }
 }
@@ -380,6 +417,7 @@ pub fn run(p: &Program) {
         },
     });
     let mut handles = vec![];
+    let mut local = Local::default();
     for op in &p.main {
         match op {
             Op::SpawnAll => {
@@ -390,8 +428,9 @@ pub fn run(p: &Program) {
                     handles.push((
                         name.clone(),
                         spawn_client(name, move || {
+                            let mut local = Local::default();
                             for op in &ops {
-                                exec(&c, si, op);
+                                exec(&c, si, op, &mut local);
                             }
                         }),
                     ));
@@ -409,12 +448,13 @@ pub fn run(p: &Program) {
                     let _ = h.join();
                 }
             }
-            other => exec(&ctx, 0, other),
+            other => exec(&ctx, 0, other, &mut local),
         }
     }
     for (_, h) in handles.drain(..) {
         let _ = h.join();
     }
+    drop(local);
     // release everything inside the execution: subscriptions first, then the store handles
     let subs: Vec<_> = ctx.subs.lock().unwrap().drain().collect();
     drop(subs);
